@@ -1479,19 +1479,21 @@ fn rescript_svc(s: &mut S, rng: &mut Rng, maxk: usize, next: &mut u32) {
         _ => {}
     });
 }
-/// renumber leaves 0.. and set the scripts from the digits of `code` (base 36 per leaf, k ≤ 2)
-fn script_svc_from(s: &mut S, mut code: usize) {
+/// renumber leaves 0.. and set the scripts from the digits of `code`: per leaf one digit in base
+/// `(kk*2)^2` encoding (cp < kk, cok, rp < kk, rok)
+fn script_svc_from(s: &mut S, mut code: usize, kk: usize) {
     let mut next = 0;
     svc_slots(s, &mut |x| {
         if let S::Leaf { id, cp, cok, rp, rok } = x {
             *id = next;
             next += 1;
-            let d = code % 36;
-            code /= 36;
-            *cp = (d % 3) as u32;
-            *cok = (d / 3) % 2 == 0;
-            *rp = ((d / 6) % 3) as u32;
-            *rok = (d / 18) % 2 == 0;
+            let base = kk * 2 * kk * 2;
+            let d = code % base;
+            code /= base;
+            *cp = (d % kk) as u32;
+            *cok = (d / kk) % 2 == 0;
+            *rp = ((d / (2 * kk)) % kk) as u32;
+            *rok = (d / (2 * kk * kk)) % 2 == 0;
         }
     });
 }
@@ -1573,30 +1575,29 @@ fn gen(a: &Args) {
         writeln!(w, "{l}").unwrap();
     }
 
-    // (1) every combinator shape up to depth 2
+    // (1) every combinator shape up to depth 2; for shapes with at most two scripted leaves every
+    //     script with k <= 1 (quick) / k <= 2 (thorough), otherwise random draws
     let shapes = svc_shapes(2);
+    let kk = if thorough { 3 } else { 2 };
     let draws = if thorough { 6 } else { 2 };
     let mut n = 0;
     for sh in &shapes {
         let nl = count_leaves(sh);
-        let full = thorough && nl <= 2;
-        let total = if full { 36usize.pow(nl as u32) } else { draws };
+        let full = nl <= 2;
+        let total = if full { (kk * 2 * kk * 2usize).pow(nl as u32) } else { draws };
         for d in 0..total {
             let mut s = sh.clone();
             if full {
-                script_svc_from(&mut s, d);
-                let mut nx = 0;
-                // Fn atoms keep their script; only leaves are enumerated
-                let _ = &mut nx;
+                script_svc_from(&mut s, d, kk);
             } else {
                 let mut nx = 0;
-                rescript_svc(&mut s, &mut rng, if thorough { 2 } else { 1 }, &mut nx);
+                rescript_svc(&mut s, &mut rng, kk - 1, &mut nx);
             }
             n += 1;
             writeln!(w, "case shape-{n}").unwrap();
             writeln!(w, "svc {s}").unwrap();
             if full {
-                // deterministic op list: enough readiness polls to settle, then two calls
+                // deterministic op list: readiness polls, a call, settle, another call
                 writeln!(w, "ready\nready\ncall 1\nready\ncall 2").unwrap();
             } else {
                 emit_ops(&mut w, &mut rng, 5, ready_bias);
